@@ -1,8 +1,8 @@
 CONSTANTS
   MaxDepth = 9
-  MaxEpochs = 2
+  MaxEpochs = 1
   Inits = {"U", "I", "C", "S", "Z", "N0", "N3", "V0", "V3", "H0", "H3"}
-  Per = 2
+  Per = 1
   Families = {"A", "D", "O", "P", "S", "F", "I", "X"}
 INIT Init
 NEXT Next
